@@ -2343,6 +2343,200 @@ def c02_first(ctx):
     return out
 
 
+# ======================================================================================= C02-ACCEPT
+def _user_pred_truth(root, d, want_bool=True):
+    """is the switch scrutinee `d` the result of a user predicate (an Fn-bounded parameter of `root` with output bool) call"""
+    if d is None or d[0] != 'call' or sg(d[1]) not in FN_CALLS or not d[2]:
+        return False
+    f = d[2][0]
+    while f is not None and f[0] in ('ref', 'mut'):
+        f = f[1]
+    if f is None or f[0] != 'param':
+        return False
+    nm = f[1][4:] if f[1].startswith('cap:') else f[1]
+    nm = nm.lstrip('*&')
+    fbs = root.fn_bounds()
+    for l in root.arg_locals():
+        if (root.local_name(l) or '') == nm:
+            return fbs.get(local_type_param(root, l), {}).get('output') == 'bool'
+    return False
+
+
+def _opt_state(t):
+    """'some' / 'none' / None (unknown) for an Option-valued term, looking through Option::map"""
+    if t is None:
+        return None
+    if t[0] == 'variant' and t[1] == 'std::option::Option':
+        return 'some' if t[2] == 1 else 'none'
+    if t[0] == 'call' and tcallee(t) == 'std::option::Option::map' and t[2]:
+        return _opt_state(t[2][0])
+    if t[0] == 'set':
+        st = {_opt_state(x) for x in t[1]}
+        return st.pop() if len(st) == 1 else None
+    return None
+
+
+@rule('C02-ACCEPT', 'a search inside a find kernel accepts an element exactly when the user filter accepts it (and the fallible stage produced a value)')
+def c02_accept(ctx):
+    return _accept_rule(ctx, 'C02-ACCEPT', list(dict.fromkeys(early_exit_tasks(ctx) + list(ctx.slots.seq_kernels))),
+                        ('find', 'find_map', 'position', 'any', 'all'), 6)
+
+
+@rule('C05-ACCEPT', 'a filtering adaptor inside a kernel lets an element through exactly when the user filter accepts it (and the fallible stage produced a value)')
+def c05_accept(ctx):
+    """The same decision as C02-ACCEPT for the adaptors of the must-visit kernels: `filter(<crate closure>)` must be true exactly
+    when the user predicate (or has_value) is, `filter_map(<crate closure>)` must yield Some exactly then.  A stricter closure
+    drops survivors before the next stage / the terminal sees them, a laxer one lets rejected elements through."""
+    return _accept_rule(ctx, 'C05-ACCEPT', list(dict.fromkeys(list(ctx.slots.tasks) + list(ctx.slots.seq_kernels))),
+                        ('filter', 'filter_map', 'take_while', 'skip_while', 'map_while'), 6)
+
+
+def _accept_rule(ctx, RID, roots, KINDS, floor):
+    """C02-FIRST decides that a task's match comes from an in-order short-circuit search.  This rule decides what that search
+    accepts: the predicate closure of every `find` / `position`, the step closure of every `find_map`, and every hand-written
+    first-match loop (Items.search_loop) is re-executed with the outcome of the user predicate and of `has_value` fixed -
+    all true: the element must be accepted (true / Some, and a loop must not go on to the next element);  any false: it must
+    be rejected (false / None).  A search that is stricter than the filter skips the first match; a laxer one reports a
+    non-match."""
+    out = RuleOut(RID)
+    F = ctx.facts
+    S = ctx.slots
+    I = items(ctx)
+    bodies = []
+    seen = set()
+
+    def add(b, root, depth):
+        if b.name in seen:
+            return
+        seen.add(b.name)
+        bodies.append((b, root))
+        for cb in F.closures_in(b, recursive=True):
+            if cb.name not in seen:
+                seen.add(cb.name)
+                bodies.append((cb, root))
+        if depth < 2:
+            for bd in [b] + F.closures_in(b, recursive=True):
+                for _, t in bd.calls():
+                    if t.get('local') and res_full(t) in F.bodies and not F.bodies[res_full(t)].is_closure() and res_full(t) not in S.tasks:
+                        hb = F.bodies[res_full(t)]
+                        add(hb, hb, depth + 1)
+
+    def res_full(t):
+        return t.get('resolved') or t.get('callee') or ''
+
+    for tn in roots:
+        add(F.bodies[tn], F.bodies[tn], 0)
+
+    CASES = (('accepted', True, True), ('filter-rejects', False, True), ('no-value', True, False))
+
+    def seeds_for(root, name, ft, hv, used=None):
+        def atoms(d):
+            if _user_pred_truth(root, d):
+                if used is not None:
+                    used.add('filter')
+                return ft
+            if d is not None and d[0] == 'call' and (sg(d[1]).endswith('Fallible::has_value')):
+                if used is not None:
+                    used.add('value')
+                return hv
+            return None
+        return {'atoms': atoms, 'key': ('accept', name, ft, hv, id(used))}
+
+    def consulted(root, name, args):
+        """which of the two tests the body consults on some path: {'filter', 'value'}"""
+        used = set()
+        for (cname, ft, hv) in CASES:
+            rr = ctx.opa.run(name, args, seeds=seeds_for(root, name, ft, hv, used))
+            if _user_pred_truth(root, rr.ret):
+                used.add('filter')
+            if rr.ret is not None and rr.ret[0] == 'call' and sg(rr.ret[1]).endswith('Fallible::has_value'):
+                used.add('value')
+        return used
+
+    n = 0
+    for (b, root) in bodies:
+        fn_root = F.root_of(b) if b.is_closure() else b
+        # (1) iterator searches with a crate closure as predicate / step
+        r = None
+        for bb, t in b.calls():
+            d_ = decl(t)
+            if not d_.startswith(ITER) or d_[len(ITER):] not in KINDS:
+                continue
+            r = r or ctx.run(b.name)
+            c = r.calls.get(bb)
+            if c is None or len(c['args']) < 2:
+                continue
+            pred = c['args'][1]
+            while pred is not None and pred[0] in ('ref', 'mut'):
+                pred = pred[1]
+            kind = d_[len(ITER):]
+            n += 1
+            key = '%s/%s/%s' % (RID, key_of(b), kind)
+            if pred is None or pred[0] != 'closure' or pred[1] not in F.bodies:
+                # the user predicate itself (`.find(filter)`): accepts what it accepts
+                okp = pred is not None and pred[0] == 'param'
+                out.inst(key, okp or pred is None or pred[0] != 'closure', 'predicate is %s' % t_str(pred)[:80], sample={'body': key_of(b), 'search': kind, 'predicate': t_str(pred)[:120]})
+                continue
+            cb = F.bodies[pred[1]]
+            croot = F.root_of(cb)
+            probs = []
+            cargs = [pred, ('param', '$element')]
+            used = consulted(croot, cb.name, cargs)
+            uses_pred = bool(used)
+            for (cname, ft, hv) in CASES:
+                if (cname == 'filter-rejects' and 'filter' not in used) or (cname == 'no-value' and 'value' not in used):
+                    continue
+                rr = ctx.opa.run(cb.name, cargs, seeds=seeds_for(croot, cb.name, ft, hv))
+                val = rr.ret
+                want = ft and hv
+                if kind in ('find_map', 'filter_map', 'map_while'):
+                    st = _opt_state(val)
+                    if want and st != 'some':
+                        probs.append('with the filter accepting the element the step yields %s, not Some(..): a match can be passed over' % t_str(val)[:80])
+                    if not want and st != 'none' and uses_pred:
+                        probs.append('in the case `%s` the step yields %s, not None: a non-match can be reported' % (cname, t_str(val)[:80]))
+                else:
+                    direct = _user_pred_truth(croot, val) or (val is not None and val[0] == 'call' and sg(val[1]).endswith('Fallible::has_value'))
+                    if want and not (val == ('const', 1) or direct):
+                        probs.append('with the filter accepting the element the predicate is %s, not true: a match can be passed over' % t_str(val)[:80])
+                    if not want and not (val == ('const', 0) or direct) and uses_pred:
+                        probs.append('with the filter rejecting the element the predicate is %s, not false: a non-match can be reported' % t_str(val)[:80])
+            if not uses_pred:
+                # a search that does not consult a user predicate (e.g. `.find_map(|x| inner_search(x))`): its step is checked where it searches
+                out.inst(key, True, 'no user predicate in this step', nontrivial=False)
+                continue
+            out.inst(key, not probs, 'accepts exactly what the user predicate accepts', sample={'body': key_of(b), 'search': kind, 'closure': key_of(cb)})
+            for p_ in probs[:1]:
+                out.fail(key, '%s: %s of `%s`: %s' % (key_of(b), 'step' if kind in ('find_map', 'filter_map', 'map_while') else 'predicate', kind, p_), cb.where())
+        # (2) hand-written first-match loops
+        if RID == 'C02-ACCEPT' and not b.is_closure() and I.search_loop(b.name) is not None:
+            n += 1
+            key = '%s/%s/loop' % (RID, key_of(b))
+            cfg = ctx.cfg(b)
+            header = next(iter(cfg.loops()))
+            latches = [a for (a, h) in cfg.back_edges() if h == header]
+            probs = []
+            used = consulted(b, b.name, None)
+            for (cname, ft, hv) in CASES:
+                if (cname == 'filter-rejects' and 'filter' not in used) or (cname == 'no-value' and 'value' not in used):
+                    continue
+                rr = ctx.opa.run(b.name, seeds=seeds_for(b, b.name, ft, hv))
+                taken = False
+                for a in latches:
+                    if a in rr.visited:
+                        taken = taken or (header in rr.switches[a][1] if a in rr.switches else True)
+                somes = [alt for alt in alternatives(rr.ret) if _opt_state(alt) != 'none']
+                if ft and hv and taken:
+                    probs.append('with the filter accepting the element the loop can still go on to the next element: a match can be passed over')
+                if not (ft and hv) and somes:
+                    probs.append('in the case `%s` the loop can return %s: a non-match can be reported' % (cname, t_str(somes[0])[:80]))
+            out.inst(key, not probs, 'returns at the first accepted element, never otherwise', sample={'fn': key_of(b)})
+            for p_ in probs[:1]:
+                out.fail(key, '%s: %s' % (key_of(b), p_), b.where())
+    out.floor('searches', n, floor if not ctx.fixture else 0)
+    return out
+
+
 # ======================================================================================= C03-THREAD / C04-THREAD / C04-CHAIN
 def from_current_pull(ctx, t):
     """does the term derive from an element / chunk delivered by a pull (or from the whole-source stream)"""
